@@ -52,6 +52,9 @@ func (p *RtspPeer) Pump() []ref.RtspItem {
 	return items
 }
 
+// Residue: bytes received that do not yet form a whole item.
+func (p *RtspPeer) Residue() int { return len(p.raw) }
+
 func (p *RtspPeer) LastStatus() int {
 	for i := len(p.Items) - 1; i >= 0; i-- {
 		if p.Items[i].IsMsg {
